@@ -268,6 +268,15 @@ func TextUTypes() (reflect.Type, reflect.Type) { return tTUp, tTUv }
 
 type NUintptr uintptr
 
+// declared (defined) container types of durations: reflect.SliceOf / MapOf cannot make these
+type NDurs []time.Duration
+type NDurMap map[string]time.Duration
+
+// DurContainers returns the declared duration containers.
+func DurContainers() []reflect.Type {
+	return []reflect.Type{reflect.TypeOf(NDurs(nil)), reflect.TypeOf(NDurMap(nil))}
+}
+
 // Duration is an int64 that merely shares time.Duration's NAME: for every source it is a plain
 // integer ("30" is thirty, "1h" is malformed).
 type Duration int64
